@@ -1087,8 +1087,14 @@ func (o *oracleCtx) c16() {
 			}
 		}
 		got := append([]string{}, p.codecs...)
+		for i := range got {
+			got[i] = strings.ToLower(normHvc1(got[i]))
+		}
 		sort.Strings(got)
 		want := append([]string{}, wantCodecs...)
+		for i := range want {
+			want[i] = strings.ToLower(normHvc1(want[i]))
+		}
 		sort.Strings(want)
 		// hexadecimal fields (avc1 profile/level bytes, hvc1 flag bytes) carry no case requirement
 		if !strings.EqualFold(strings.Join(got, ","), strings.Join(want, ",")) {
